@@ -1,10 +1,13 @@
 #!/bin/bash
 # usage: revert_all.sh  -- every repaired defect (known_findings.json, status fixed) un-repaired in a scratch worktree in turn: the
 # property's quick check must report the violation again ("a fixed entry suppresses nothing"). Patches: seeded/fix-reverts/<prop>_<commit>.diff
+# PAR=<n> runs n of them at a time.
 ROOT=$(cd "$(dirname "$0")/.." && pwd); cd $ROOT
-OUT=${REVERT_RESULTS:-$ROOT/seeded/fix-reverts/RESULTS.txt}; : > $OUT
-for f in seeded/fix-reverts/*.diff; do
-  b=$(basename $f .diff); prop=${b%%_*}
+OUT=${REVERT_RESULTS:-$ROOT/seeded/fix-reverts/RESULTS.txt}
+TMPD=$(mktemp -d /tmp/revert_all.XXXXXX)
+one() { f=$1; b=$(basename $f .diff); prop=${b%%_*}
   res=$(harness/seed_run.sh $ROOT/$f $prop 2>&1 | grep -E "VIOLATION|quick:|INFRA|APPLY" | head -2 | tr '\n' '|' | cut -c1-200)
-  echo "$b: $res" | tee -a $OUT
-done
+  echo "$b: $res" | tee $TMPD/$b; }
+export -f one; export ROOT TMPD
+ls seeded/fix-reverts/*.diff | xargs -P ${PAR:-1} -I{} bash -c 'one {}'
+cat $(ls $TMPD/* | sort) > $OUT; rm -rf $TMPD
